@@ -57,8 +57,27 @@ def execute(c):
 
         da = xr.DataArray(pix, dims=("time", "y", "x"), coords={"time": pd.date_range("2000-01-01", periods=pix.shape[0], freq="10D")}, attrs={"nodata": ND})
         zn = xr.DataArray(zones, dims=("y", "x"), attrs={"nodata": ZND})
-        if c["api"] == "accessor_dask":
+        if c["api"] in ("accessor_dask", "accessor_dask_joint"):
             da = da.chunk({"time": 1})
+        if c["api"] == "accessor_dask_joint":
+            # two results with the same name over DIFFERENT zone rasters evaluated in one graph: each must be its own
+            import dask
+
+            zb = xr.DataArray(np.where(zones == ZND, ZND, (zones + 1) % max(c["nz"], 1)).astype(zones.dtype), dims=("y", "x"), attrs={"nodata": ZND})
+            dt_ = "float32" if c["bits"] == 24 else "float64"
+            ra = da.hdc.zonal.mean(zn, list(range(c["nz"])), dtype=dt_, name="zmean")
+            rb = da.hdc.zonal.mean(zb, list(range(c["nz"])), dtype=dt_, name="zmean")
+            va, vb = dask.compute(ra, rb)
+            res = np.asarray(va)
+            resb = np.asarray(vb)
+            # the twin: same pixels, zone k of raster B is zone k-1 of raster A
+            nzz = c["nz"]
+            c["twin"] = {"nz": nzz, "bits": c["bits"], "nd": str(ND), "znd": ZND, "inmod": False,
+                         "steps": [[[((z + 1) % nzz if z != ZND else ZND), v, cnt] for (z, v, cnt) in runs] for runs in c["steps"]],
+                         "res": [[[core.rat(resb[t, z, 0]), core.rat(resb[t, z, 1])] for z in range(nzz)] for t in range(resb.shape[0])]}
+            c["res"] = [[[core.rat(res[t, z, 0]), core.rat(res[t, z, 1])] for z in range(nzz)] for t in range(res.shape[0])]
+            c["nd"], c["znd"], c["inmod"] = str(ND), ZND, watch.changed()
+            return c
         zone_ids = list(range(c["nz"])) if c["tid"] % 2 else np.arange(c["nz"])
         dimn = "zones" if c["tid"] % 3 else "region"
         r = da.hdc.zonal.mean(zn, zone_ids, dtype="float32" if c["bits"] == 24 else "float64", dim_name=dimn, name=("zm" if c["tid"] % 4 == 0 else None))
@@ -123,7 +142,7 @@ def gen_cases(tier, seed):
         lay = layout(ny * nx, nz_used, [1, 1, 2, 3, 7])
         T = rng.randint(1, 3)
         steps = [values(lay, dtype, rng.choice([0, 0.2, 0.8]), rng.choice([0, 0.2])) for _ in range(T)]
-        api = rng.choice(["kernel", "accessor", "accessor_dask"])
+        api = rng.choice(["kernel", "accessor", "accessor_dask", "accessor_dask_joint"])
         if api == "kernel":   # the kernel itself only knows nodata (NaN is mapped to nodata by the accessor)
             steps = [[[z, (ND if v is None else v), cnt] for z, v, cnt in s] for s in steps]
         add({"api": api, "steps": steps, "shape": [ny, nx], "dtype": dtype, "nz": nz, "bits": rng.choice([24, 24, 53])})
@@ -162,6 +181,13 @@ def run(tier, seed):
         raise core.Machinery(f"negative control failed: accumulating in the 4-bit output format must break the contract\n{r.tail(20)}")
     rep.add_mc("MCZonal accumulators in the output format (negative control: violated as expected)", r)
     cases = [execute(c) for c in gen_cases(tier, seed)]
+    twins = []
+    for c in cases:
+        if "twin" in c:
+            t = dict(c["twin"], tid=len(cases) + len(twins) + 1, api="accessor_dask_joint(twin)", shape=c["shape"], dtype=c["dtype"])
+            t["steps"] = [[[z, (None if v is None else v), cnt] for (z, v, cnt) in runs] for runs in t["steps"]]
+            twins.append(t)
+    cases += twins
     verdicts, st = core.validate_batch(MODULE, [tla_case(c) for c in cases], per_jvm=200, timeout=6000, heap="4g")
     rep.add_stats("TraceZonal", st, len(cases))
     rep.extra.update(
